@@ -155,6 +155,37 @@ CHECKS = {
              "bulk-loaded B+ tree from creation). The back-end is invisible in the specification, so conformance of each configuration (answers, "
              "outcomes, table contents, and the index contents read back through the back-end) to Engine.tla / SqlSem.tla is the property.",
         note=TRUST + "Same bounds and sampling as C02. The 100 000-row threshold itself is not reached; the hook forces the same code path."),
+    "C18": dict(
+        engine="engine", category="model_checking", technique=T_ENGINE, design="DESIGN.md section 6 (C18), section 10",
+        text="Engine!Apply defines saving and loading back as the identity on tables, rows and index definitions. (a) MC_Persist.tla enumerates rows of "
+             "abstract value classes for a table with one column per type class (INTEGER, BIGINT, SMALLINT, DOUBLE PRECISION, VARCHAR, BOOLEAN, DATE, "
+             "TIME, TIMESTAMP): 64-bit extremes, NaN, +-Infinity, -0.0, subnormal, empty / quote / backslash / semicolon / newline / comment-looking / "
+             "Unicode strings, calendar boundaries - each class alone and all classes together, inserted through the storage API - followed by a "
+             "reload in binary, compressed and JSON format and SELECT *. (b) A seeded sample of the MC_Idx histories (DML, six index shapes incl. prefix "
+             "and UNIQUE) is followed by a reload in each format and ten index-relevant probe queries. After the reload TLC compares rows (exact, "
+             "floats as shortest round-trip tokens), column lists, column types and nullability (against what was observed before the reload), the "
+             "index registry, the contents of every index, and validates the probe answers against EvalQ.",
+        note=TRUST + "Quick: 156 value-class scenarios + 250 histories x 3 formats; thorough 3 000 histories. Views, triggers, roles and spatial indexes "
+             "are not part of the compared state; NUMERIC/REAL/CHAR/INTERVAL columns are not in the value table."),
+    "C19": dict(
+        engine="engine", category="model_checking", technique=T_ENGINE, design="DESIGN.md section 6 (C19), section 10",
+        text="Same scenarios and comparison as C18 with the SQL dump (save_sql_dump, then vibesql_executor::load_sql_dump into a new database): the "
+             "reload must reproduce every table with the same columns and exactly the same rows for all value classes (negative and 64-bit extreme "
+             "numbers, NaN / infinities / -0.0, strings with quotes, backslashes, semicolons, newlines, lines starting with '--', Unicode). Which "
+             "index definitions a dump carries is left open by the property: the index registry observed after the reload is taken over, and the "
+             "probe queries are validated on the reloaded state.",
+        note=TRUST + "Quick: 52 value-class scenarios + 250 histories; thorough 3 000 histories."),
+    "C20": dict(
+        engine="engine", category="fault_enumeration", technique="fault model and outcome alphabet in TLA+ (MC_Persist.tla, Engine.tla); TLC-enumerated faults applied to real files; outcomes validated by TLC",
+        design="DESIGN.md section 6 (C20), section 10",
+        text="MC_Persist.tla (mode fault) enumerates faults on the file of a saved database (three rows of extreme value classes, two indexes) in "
+             "each of the four formats: truncation at every offset of the range, single-bit flips (bits 0 and 7), 4-byte windows overwritten with "
+             "0, 1, 0x7fffffff, 0xffffffff (length fields), and seeded garbage from an offset; offsets are absolute from the start and from the end. "
+             "The harness applies each fault to the real file and loads it in a child process (vq_load) under a 3 GB address-space limit and a 20 s "
+             "wall clock; Engine!Apply allows exactly the outcomes ok and err - panic, abort, out-of-memory and hang are violations.",
+        note="The specification contributes the fault model and the outcome alphabet, nothing deeper (thin, as announced in DESIGN.md). Quick: offsets "
+             "0..16 and the last 16 bytes (about 900 damaged loads); thorough: every offset up to 700, i.e. the whole file for the binary/JSON/SQL formats. "
+             "Arbitrary byte strings unrelated to a valid file are represented only by the garbage faults."),
     "C32": dict(
         engine="engine", category="model_checking", technique=T_SEM, design="DESIGN.md section 6 (C32), section 10",
         text="Family F9: three defining queries (projection with filter, GROUP BY aggregate with a column list, join) each used as a view, as a CTE and "
@@ -162,6 +193,17 @@ CHECKS = {
              "on the model for every enumerated database (ThmView) and validates every recorded result against EvalQ of the inlined meaning; run plain "
              "and with indexes + ANALYZE, on databases that include empty base tables.",
         note=TRUST + "Quick: T1 <= 2 rows, T2 <= 1; thorough T2 <= 2. Recursive CTEs and views over views are outside the model."),
+    "C33": dict(
+        engine="engine", category="model_checking", technique=T_ENGINE, design="DESIGN.md section 6 (C33), section 10",
+        text="MC_Ddl.tla: every history (from three starting points) of CREATE / DROP TABLE on one re-used name, CREATE / DROP INDEX, ALTER TABLE ADD "
+             "COLUMN (with and without DEFAULT) / DROP COLUMN / CHANGE COLUMN (rename), INSERT with 1, 2 and 3 values, UPDATE, DELETE and BEGIN / COMMIT / "
+             "ROLLBACK, with table and index names also spelled in lower case; the model is checked for 'every index names an existing table and existing "
+             "columns, every row is as wide as the column list'. After every statement TLC compares the catalog's table list, the catalog's AND the "
+             "stored table's column lists, row widths and contents, the index registry and the contents of every index with Engine!Apply "
+             "(DoAddCol / DoDropCol / DoRenCol); five probe queries (SELECT *, index-driven filters, projections of an added / renamed column) are "
+             "validated against EvalQ after every history.",
+        note=TRUST + "Quick: <= 3 statements after the starting point, thorough <= 4. Dropping or renaming an indexed column may be refused or may "
+             "take the index along (both conform); columns used by constraints, RENAME TABLE, schemas and ALTER ... ADD/DROP CONSTRAINT are outside this model."),
 }
 
 NOT_APPLICABLE = {
